@@ -1287,6 +1287,14 @@ class Engine:
                     raise OutsideSubset(f"slice of {b.ty}")
 
     def index(self, base, idx, st, node=None):
+        if isinstance(base, Empty):
+            if st.spec or st.nofork:
+                # subscript of an (untyped) empty literal only occurs under a vacuous guard in specifications
+                yield st, self.fresh(OPAQUE, "empty_item")
+                return
+            st.note("raises IndexError/KeyError: subscript of an empty literal")
+            self.raise_exc(st, self.new_exc(LookupError, st, exact=False))
+            return
         if isinstance(base, STuple):
             i = self.coerce(idx, INT, st)
             if z3.is_int_value(i.t):
